@@ -283,8 +283,10 @@ def c05_fills(tr, out):
         # limit respected
         if frags:
             if is_fok:
+                # the exchange (and flumine's wap()) carry the average matched price to 2 dp; the limit is compared
+                # with that reported average, so a true VWAP within 0.005 (the rounding of that average) of the limit is accepted
                 w = vwap(frags)
-                if (side == "BACK" and w < price - 1e-9) or (side == "LAY" and w > price + 1e-9):
+                if (side == "BACK" and w < price - 0.005 - 1e-9) or (side == "LAY" and w > price + 0.005 + 1e-9):
                     out.v("fok-vwap-breaches-limit", tagbase, placement=p, vwap=w)
             else:
                 for f in frags:
@@ -328,3 +330,126 @@ def c05_fills(tr, out):
                 out.v("fill-worse-than-limit", {"side": f["side"], "fok": False, "via": f["caller"]}, fragment=f)
         if is_fok and p is not None and f["seq"] > p["seq"] and f["tick"] > p["tick"]:
             out.v("fok-filled-after-placement", {"side": f["side"]}, fragment=f, placement=p)
+
+
+# -------------------------------------------------------------------------------------------
+# C07 latency / bet delay
+# -------------------------------------------------------------------------------------------
+
+LAT_KEYS = {"PLACE": "place_latency", "CANCEL": "cancel_latency", "UPDATE": "update_latency", "REPLACE": "replace_latency"}
+LAT_DEFAULT = {"place_latency": 0.120, "cancel_latency": 0.170, "update_latency": 0.150, "replace_latency": 0.280}
+
+
+def _ms(dt):
+    import datetime as _dt
+
+    return int(round((dt - _dt.datetime(1970, 1, 1)).total_seconds() * 1000))
+
+
+def c07_latency(tr, out, snaps_by_market, case):
+    cfg = case.get("config", {})
+    times = {m: [s["pt"] for s in snaps] for m, snaps in snaps_by_market.items()}
+    delays = {m: [s["bet_delay"] for s in snaps] for m, snaps in snaps_by_market.items()}
+    effects = {}
+    for e in tr.effects:
+        effects.setdefault(e["pid"], []).append(e)
+    for p in tr.packages:
+        m = p["market"]
+        tk = tr.ticks[p["tick"]]
+        if tk["market"] != m:
+            out.v("package-created-outside-its-market-update", {"kind": p["kind"]}, package=p, tick=tk)
+            continue
+        t = tk["pt"]
+        try:
+            i_req = times[m].index(t)
+        except ValueError:
+            out.v("request-time-not-a-publish-time", {"kind": p["kind"]}, package=p, tick=tk)
+            continue
+        lat = cfg.get(LAT_KEYS[p["kind"]], LAT_DEFAULT[LAT_KEYS[p["kind"]]])
+        d = lat + (delays[m][i_req] if p["kind"] in ("PLACE", "REPLACE") else 0)
+        # latencies are whole milliseconds, publish times are integer ms: the comparison is decided exactly.
+        # On an exact tie (gap == delay) the statement's "more than" means not yet; the only tolerated
+        # deviation is the binary floating point outcome of the very same expression (e.g. 0.12 + 1 vs 1.12).
+        d_ms = int(round(d * 1000))
+        exp = None
+        tie = False
+        for i in range(i_req + 1, len(times[m])):
+            gap = times[m][i] - t
+            if gap > d_ms:
+                exp = i
+                break
+            if gap == d_ms:
+                tie = True
+                if (gap / 1000) > d:
+                    exp = i
+                    break
+        got = effects.get(p["pid"], [])
+        out.rule("package")
+        out.d("c07:%s:%s:%s:%s" % (p["kind"], d, "never" if exp is None else min(exp - i_req, 4), "tie" if tie else ""))
+        tags = {"kind": p["kind"], "delay": "bet_delay" if d != lat else "latency"}
+        if len(got) > 1:
+            out.v("package-executed-twice", tags, package=p, effects=got)
+            continue
+        if not got:
+            if exp is not None:
+                out.v("package-never-took-effect", tags, package=p, expected_index=exp, times=times[m][i_req : i_req + 6], delay=d)
+            continue
+        e = got[0]
+        etk = tr.ticks[e["tick"]]
+        if exp is None or etk["market"] != m or etk["pt"] != times[m][exp]:
+            out.v(
+                "effect-at-wrong-update",
+                dict(tags, early=exp is None or etk["pt"] < times[m][exp], tie=tie),
+                package=p,
+                effect=e,
+                expected=None if exp is None else times[m][exp],
+                got=etk,
+                delay=d,
+                t=t,
+            )
+            continue
+        i_eff = times[m].index(etk["pt"])
+        out.rule("effect")
+        if e["book_pt"] != times[m][i_eff - 1]:
+            out.v("effect-against-wrong-book", tags, package=p, effect=e, expected_book=times[m][i_eff - 1])
+    # pending orders have no fills; timestamps
+    for o, ss in tr.samples.items():
+        for s in ss:
+            if s["status"] == "PENDING":
+                out.rule("pending-no-fill")
+                if s["sm"] or s["frags"]:
+                    out.v("pending-order-filled", {}, order=o, sample=s)
+    final_ms = tr.ticks[-1]["pt"] if tr.ticks else None
+    full_match = any(c.get("full_match") for c in case.get("clients", []))
+    for o, order in tr.orders.items():
+        evs = [e for e in tr.status if e["o"] == o]
+        if not evs:
+            continue
+        try:
+            created = _ms(order.date_time_created)
+        except Exception:
+            continue
+        first_tick_ms = tr.ticks[evs[0]["tick"]]["pt"]
+        out.rule("timestamps")
+        stamps = {"created": created}
+        if order.responses.date_time_placed is not None:
+            stamps["placed"] = _ms(order.responses.date_time_placed)
+        if order.date_time_execution_complete is not None:
+            stamps["complete"] = _ms(order.date_time_execution_complete)
+        stamps["status_update"] = _ms(order.date_time_status_update)
+        for name, v in stamps.items():
+            if v > final_ms or v < created:
+                out.v("timestamp-outside-run", {"stamp": name}, order=o, stamps=stamps, final=final_ms)
+        if "placed" in stamps:
+            ack = next((e for e in evs if e["prev"] == "PENDING" and e["new"] != "VIOLATION"), None)
+            if ack is not None and stamps["placed"] != tr.ticks[ack["tick"]]["pt"]:
+                out.v("placed-stamp-not-effect-time", {}, order=o, stamps=stamps, ack=ack)
+        if not full_match:
+            for f in order.simulated.matched:
+                if f[0] < created or f[0] > final_ms:
+                    out.v("fragment-stamp-outside-life", {}, order=o, frag=list(f), stamps=stamps)
+    for cb in tr.callbacks:
+        if cb.get("now") is not None and cb.get("pt") is not None:
+            out.rule("clock")
+            if cb["now"] != cb["pt"]:
+                out.v("utcnow-differs-from-publish-time", {"callback": cb["kind"]}, callback=cb)
